@@ -428,6 +428,43 @@ class _FakeConn:
         return self.lines.pop(0) if self.lines else b""
 
 
+def _atx_driver():
+    """The driver through its own constructor (the serial port does not exist: the constructor logs that and
+    leaves conn = None; the harness supplies the connection)."""
+    quiet = types.SimpleNamespace(debug=lambda *a, **k: None, info=lambda *a, **k: None, error=lambda *a, **k: None,
+                                  exception=lambda *a, **k: None, warning=lambda *a, **k: None)
+    return ATX.SyncDaliHatDriver(port="/dev/verif-no-such-port", LOG=quiet)
+
+
+def h_atx_history(ctx):
+    """Three commands through one driver object.  The first is a send-twice command that gets only one of its
+    two acknowledgement lines (then silence); the second a send-twice command acknowledged twice; the third a
+    query answered with a symbolic value: it must be returned that value - nothing of an earlier exchange may
+    be carried over."""
+    short = ctx.fresh_bool("first_ack_missing")
+    v = ctx.fresh("val", 0, 255)
+    v = v if isinstance(v, int) else v.concretize()
+    drv = _atx_driver()
+    c1 = gg.SetMaxLevel(A.GearShort(1))
+    c2 = gg.SetMinLevel(A.GearShort(2))
+    q = gg.QueryActualLevel(A.GearShort(3))
+    tag = "atx/history"
+    for k, (cmd, lines) in enumerate(((c1, ["N\n"] * (1 if short else 2)), (c2, ["N\n", "N\n"]),
+                                      (q, ["J%02X\n" % v]))):
+        drv.conn = _FakeConn([l.encode("ascii") for l in lines])
+        st, r = call(drv.send, cmd)
+        if st == "exc":
+            ctx.fail("send %d raised %r" % (k, r), key=tag + "/raised:" + type(r).__name__)
+            return "raised"
+        if k == 1:
+            ctx.prove(not drv.conn.lines, "an acknowledgement line of the second command was left unread",
+                      key=tag + "/unread")
+    ok = type(r) is type(q).response and r.raw_value is not None and not r.raw_value.error
+    ctx.prove(ok and r.raw_value.as_integer == v, "the query after two configuration commands returned %r, the gear "
+              "answered %d" % (r, v), key=tag + "/answer")
+    return "short" if short else "full"
+
+
 def h_atx(ctx, shape):
     name, mk = SHAPES[shape]
     cmd = mk()
@@ -435,11 +472,7 @@ def h_atx(ctx, shape):
     v = ctx.fresh("val", 0, 255)
     v = v if isinstance(v, int) else v.concretize()
     import threading
-    drv = ATX.SyncDaliHatDriver.__new__(ATX.SyncDaliHatDriver)
-    drv.lock = threading.RLock()
-    drv.buffer = []
-    drv.LOG = types.SimpleNamespace(debug=lambda *a: None, info=lambda *a: None, error=lambda *a: None,
-                                    exception=lambda *a: None)
+    drv = _atx_driver()
     line = ("J%02X\n" % v) if answered else "N\n"
     drv.conn = _FakeConn([line.encode("ascii")] * (2 if cmd.sendtwice else 1))
     st, r = call(drv.send, cmd)
@@ -567,6 +600,7 @@ def cases(tier):
                            {"which": which, "shape": i, "scenario": "stale-answers-2"}))
         cs.append(Case("sci-stale-info-%s" % SHAPES[i][0], h_serial,
                        {"which": "sci", "shape": i, "scenario": "stale-info"}))
+    cs.append(Case("atx-history", h_atx_history, {}))
     for mode in ("inflight", "queued", "abandoned"):
         cs.append(Case("tridonic-pairing-%s" % mode, h_tridonic_pairing, {"mode": mode},
                        install=rigs.install_tridonic_structs))
